@@ -54,6 +54,7 @@ func post(c *ev.Check, outs []*run.Outcome) {
 	c.Require("max.outage_ticks_survived", 220)
 	c.Require("cases_iofault", 3)
 	c.Require("stall_rounds_stuck", 5)
+	c.Require("lock_probes_free_while_a_round_waits_for_a_silent_server", 10)
 	c.Require("stall_later_round_observed", 5)
 	c.Require("banned_udp_ports_watched", 20*min)
 	if c.Tier == "thorough" {
